@@ -122,7 +122,10 @@ func (k Keeper) ToggleClient(
 	if err := newClientState.Initialize(ctx, k.cdc, k.ClientStore(ctx, chainName), newConsensusState); err != nil {
 		return err
 	}
-	k.SetClientConsensusState(ctx, chainName, newClientState.GetLatestHeight(), newConsensusState)
+	// as in CreateClient: a TSS client has no consensus states (its latest height is the zero height)
+	if newConsensusState.ClientType() != exported.TSS {
+		k.SetClientConsensusState(ctx, chainName, newClientState.GetLatestHeight(), newConsensusState)
+	}
 
 	k.Logger(ctx).Info(
 		"client state toggled",
